@@ -163,4 +163,14 @@ def handleImplied : List String → String
     | _ => "bad-expr"
   | _ => "bad-op"
 
+/-- `ifguards <member guards>` -> block guard and per-member guards -/
+def handleIfGuards : List String → String
+  | [cs] => let g := emitInterfaceGuards (decNats cs); s!"{g.1} {encNats g.2}"
+  | _ => "bad-op"
+
+/-- `ranks <min> <max>` -/
+def handleRanks : List String → String
+  | [lo, hi] => encNats (assumedRanks lo.toNat! hi.toNat!)
+  | _ => "bad-op"
+
 end Driver
